@@ -26,6 +26,8 @@ Event = {"e": name, "m": message index (1-based, 0 = none), "x": int, "y": int,
 from __future__ import annotations
 
 import asyncio
+import concurrent.futures
+import threading
 import contextvars
 import logging
 import sys
@@ -93,6 +95,8 @@ class Env:
         self.returned: Dict[int, Any] = {}
         self.raised: Dict[int, BaseException] = {}
         self.msg_labels: Dict[int, Dict[str, Any]] = {}
+        self.sync_m: Dict[int, int] = {}
+        self.abort = False
         self.closed = False
 
     def rec(self, e: str, m: int = 0, x: int = 0, y: int = 0, s: str = "") -> None:
@@ -126,6 +130,68 @@ def _mid(task_id: str) -> int:
         return int(task_id[1:]) if task_id.startswith("m") else 0
     except ValueError:
         return 0
+
+
+class SyncHold:
+    """A synchronous task function that is still running in a worker thread; quacks like the futures in Env.body_fut."""
+
+    def __init__(self) -> None:
+        self.go = threading.Event()
+        self.started = threading.Event()
+        self.outcome: Any = None
+        self.thread: Optional[threading.Thread] = None
+        self._done = False
+
+    def done(self) -> bool:
+        return self._done
+
+    def set_result(self, outcome: Any) -> None:
+        self.outcome = outcome
+        self._done = True
+        self.go.set()
+        if self.thread is not None:
+            self.thread.join(10)          # the function has returned and its future's callbacks were scheduled on the loop
+
+
+class ThreadExec(concurrent.futures.Executor):
+    """Executor for scenarios with slow synchronous tasks: those run in a real thread that the scenario releases with a
+    `fin` step (hand-shakes make the interleaving deterministic); everything else runs inline."""
+
+    def __init__(self, env: "Env") -> None:
+        self.env = env
+
+    def submit(self, fn: Any, /, *args: Any, **kwargs: Any) -> "concurrent.futures.Future[Any]":  # type: ignore[override]
+        env = self.env
+        call_args = args[1] if len(args) > 1 else []
+        i = call_args[0] if call_args and isinstance(call_args[0], int) else 0
+        mc = env.cfg["msgs"][i - 1] if 0 < i <= len(env.cfg["msgs"]) else {}
+        cfut: "concurrent.futures.Future[Any]" = concurrent.futures.Future()
+        if not mc.get("slow"):
+            try:
+                cfut.set_result(fn(*args, **kwargs))
+            except BaseException as exc:  # noqa: BLE001
+                cfut.set_exception(exc)
+            return cfut
+        hold = SyncHold()
+        env.body_fut[i] = hold  # type: ignore[assignment]
+        env.sync_m[i] = CUR_M.get()
+
+        cfut.set_running_or_notify_cancel()     # like a pool thread that has picked the job up: it cannot be cancelled any more
+
+        def runner() -> None:
+            try:
+                res = fn(*args, **kwargs)
+            except BaseException as exc:  # noqa: BLE001
+                if not env.abort:
+                    cfut.set_exception(exc)
+                return
+            if not env.abort:
+                cfut.set_result(res)
+
+        hold.thread = threading.Thread(target=runner, daemon=True)
+        hold.thread.start()
+        hold.started.wait(10)             # the function has begun (its "start" event is recorded) before submit() returns
+        return cfut
 
 
 class ScriptedBroker(AsyncBroker):
@@ -417,8 +483,17 @@ def make_tasks(env: Env, broker: ScriptedBroker, cfg: Dict[str, Any]) -> None:
         raise exc
 
     def body_sync(i: int, ctx_tid: int, v: Any = None) -> Any:
-        m = CUR_M.get()
         mc = cfg["msgs"][i - 1]
+        hold = env.body_fut.get(i)
+        if mc.get("slow") and isinstance(hold, SyncHold):
+            m = env.sync_m.get(i, i)          # runs in a worker thread: the context variable of the callback is not there
+            env.rec("start", m=m, x=i, y=ctx_tid, s=argflag(i, v))
+            hold.started.set()
+            hold.go.wait()
+            if env.abort:
+                return None
+            return finish_body(i, m, hold.outcome)
+        m = CUR_M.get()
         env.rec("start", m=m, x=i, y=ctx_tid, s=argflag(i, v))
         return finish_body(i, m, mc.get("outcome", "ret"))
 
@@ -614,7 +689,7 @@ def run(scn: Dict[str, Any]) -> List[Dict[str, Any]]:
         elif cfg.get("via") != "cli":
             receiver = ObservedReceiver(
                 broker,
-                executor=InlineExecutor(),
+                executor=ThreadExec(env) if any(m_.get("slow") for m_ in cfg["msgs"]) else InlineExecutor(),
                 validate_params=True,
                 max_async_tasks=cfg.get("A") or None,  # 0 = unlimited
                 max_prefetch=cfg.get("P", 0),
@@ -637,6 +712,13 @@ def run(scn: Dict[str, Any]) -> List[Dict[str, Any]]:
         loop.settle()
         return _play(scn, loop, env, broker, task, finish, request_stop)
     finally:
+        env.closed = True
+        env.abort = True
+        for h in list(env.body_fut.values()):
+            if isinstance(h, SyncHold):
+                h.go.set()
+                if h.thread is not None:
+                    h.thread.join(5)
         try:
             loop.shutdown()
         except Exception:  # noqa: BLE001
